@@ -75,7 +75,7 @@ Fixpoint rprint (direct : bool) (e : pyexpr) {struct e} : string :=
   let fparts := fun (vs : list pyexpr) =>
     sconcat (map (fun c => match c with PStr _ raw _ => fesc raw | _ => rprint false c end) vs) in
   match e with
-  | PName id => id
+  | PName id _ => id
   | PNum isint r => num_text isint r
   | PConst r => r
   | PStr r _ _ => r
@@ -176,12 +176,12 @@ Definition lambda_gap (po pk : list pyexpr) (vp : option string) (ko : list pyex
 Definition is_joined (e : pyexpr) : bool := match e with PJoinedStr _ => true | _ => false end.
 
 Definition is_name_or_attr_src (e : pyexpr) : bool :=
-  match e with PName _ | PAttribute _ _ => true | _ => false end.
+  match e with PName _ _ | PAttribute _ _ => true | _ => false end.
 
 (* ---------- what a subscripted value denotes: dotted chain of names resolved through the module's imports ---------- *)
 Fixpoint src_canon (env : nenv) (e : pyexpr) : option string :=
   match e with
-  | PName id => Some (resolve env id)
+  | PName id loc => Some (if loc then id else resolve env id)
   | PAttribute v a => match src_canon env v with Some p => Some (p ++ "." ++ a)%string | None => None end
   | _ => None
   end.
@@ -193,7 +193,7 @@ Fixpoint quirk_canon (e : pyexpr) : option string :=
   match e with
   | PAttribute v a =>
       match v with
-      | PName _ => None
+      | PName _ _ => None
       | PAttribute _ _ => match quirk_canon v with Some p => Some (p ++ "." ++ a)%string | None => None end
       | PNum _ _ | PConst _ | PStr _ _ _ => Some ("str." ++ a)%string
       | _ => Some a
@@ -210,7 +210,7 @@ Fixpoint rule_ok (litroot : bool) (e : pyexpr) {struct e} : bool :=
   let np := rule_ok litroot in
   let no := fun (o : option pyexpr) => match o with Some c => np c | None => true end in
   match e with
-  | PName _ | PNum _ _ | PConst _ => true
+  | PName _ _ | PNum _ _ | PConst _ => true
   | PStr _ _ p => no p
   | PParsed _ => false
   | PAttribute v _ | PUnaryOp _ v | PKeyword _ v | PStarred v | PYieldFrom v | PAwait v => np v
@@ -234,12 +234,69 @@ Fixpoint rule_ok (litroot : bool) (e : pyexpr) {struct e} : bool :=
 (* no PParsed (rule_ok with the repair) *)
 Definition no_parsed (e : pyexpr) : bool := rule_ok true e.
 
+(* ---------- which names an expression binds itself: comprehension targets and lambda parameters ---------- *)
+(* the Name nodes of an assignment target that are stores (a.b and a[i] only load a) *)
+Fixpoint store_names (t : pyexpr) : list string :=
+  match t with
+  | PName id _ => [id]
+  | PTuple es | PList es => flat_map store_names es
+  | PStarred v => store_names v
+  | PParsed p => store_names p
+  | _ => []
+  end.
+Definition param_name (p : pyexpr) : list string := match p with PParam n _ => [n] | _ => [] end.
+Definition optl (o : option string) : list string := match o with Some n => [n] | None => [] end.
+Definition mem_str (x : string) (l : list string) : bool := existsb (String.eqb x) l.
+
+(* every Name carries the flag the scoping rule gives it under the local names ls:
+   - the targets of all the `for` clauses of a comprehension are local to its element, its targets, its conditions and
+     the iterables of its later clauses; the iterable of the first clause is evaluated outside;
+   - the parameters of a lambda are local to its body; its defaults are evaluated outside *)
+Fixpoint scope_ok (ls : list string) (e : pyexpr) {struct e} : bool :=
+  let d := scope_ok ls in
+  let dopt := fun (o : option pyexpr) => match o with Some c => d c | None => true end in
+  let comp := fun (elts : list pyexpr) (gens : list pyexpr) =>
+    let ls' := (ls ++ flat_map (fun g => match g with PComprehension t _ _ _ => store_names t | _ => [] end) gens)%list in
+    forallb (scope_ok ls') elts &&
+    (fix sg (first : bool) (gs : list pyexpr) {struct gs} : bool :=
+       match gs with
+       | [] => true
+       | PComprehension t it ifs _ :: r =>
+           scope_ok ls' t && scope_ok (if first then ls else ls') it && forallb (scope_ok ls') ifs && sg false r
+       | g :: r => scope_ok ls' g && sg false r
+       end) true gens in
+  match e with
+  | PName id loc => Bool.eqb loc (mem_str id ls)
+  | PNum _ _ | PConst _ => true
+  | PStr _ _ p => dopt p
+  | PParsed p => d p
+  | PAttribute v _ | PUnaryOp _ v | PKeyword _ v | PStarred v | PYieldFrom v | PAwait v => d v
+  | PBinOp l _ r => d l && d r
+  | PBoolOp _ vs | PTuple vs | PList vs | PSet vs | PDict vs | PJoinedStr vs => forallb d vs
+  | PCompare l _ cs => d l && forallb d cs
+  | PCall f args kws => d f && forallb d args && forallb d kws
+  | PSubscript v _ sl => d v && d sl
+  | PSlice lo up st => dopt lo && dopt up && dopt st
+  | PDictItem k v => dopt k && d v
+  | PIfExp b t o => d b && d t && d o
+  | PLambda po pk vp ko vk body =>
+      forallb d po && forallb d pk && forallb d ko
+      && scope_ok (ls ++ flat_map param_name po ++ flat_map param_name pk ++ optl vp ++ flat_map param_name ko ++ optl vk)%list body
+  | PParam _ dd => dopt dd
+  | PNamedExpr t v => d t && d v
+  | PListComp e1 gens | PSetComp e1 gens | PGeneratorExp e1 gens => comp [e1] gens
+  | PDictComp k v gens => comp [k; v] gens
+  | PComprehension t it ifs _ => d t && d it && forallb d ifs      (* only reached outside a comprehension node *)
+  | PFormattedValue v _ spec => d v && dopt spec
+  | PYield v => dopt v
+  end.
+
 (* the abstraction's own Literal flags agree with the resolution of the model (oracle tie: two statements of one rule) *)
 Fixpoint lits_agree (env : nenv) (e : pyexpr) {struct e} : bool :=
   let d := lits_agree env in
   let dopt := fun (o : option pyexpr) => match o with Some c => d c | None => true end in
   match e with
-  | PName _ | PNum _ _ | PConst _ => true
+  | PName _ _ | PNum _ _ | PConst _ => true
   | PStr _ _ p => dopt p
   | PParsed p => d p
   | PSubscript v lit sl => Bool.eqb lit (src_is_literal env v) && d v && d sl
@@ -282,7 +339,7 @@ Fixpoint gaps (direct isub ijoin ifmt : bool) (e : pyexpr) {struct e} : list nat
                        | _ => gaps false false true nfmt c
                        end) vs in
   match e with
-  | PName _ | PConst _ | PNum _ _ => []
+  | PName _ _ | PConst _ | PNum _ _ => []
   | PStr _ _ _ => if ijoin && negb ifmt then [G_FSTRING] else []
   | PParsed p => gaps direct isub false false p
   | PAttribute v _ => ga P_ATOM v ++ (if is_int_lit v && negb (fx_intattr fx) then [G_INT_ATTR] else [])
@@ -311,7 +368,7 @@ Fixpoint gaps (direct isub ijoin ifmt : bool) (e : pyexpr) {struct e} : list nat
   | PLambda po pk vp ko _ body =>
       (if lambda_gap po pk vp ko && negb (fx_lambda fx) then [G_LAMBDA] else [])
       ++ flat_map g1 po ++ flat_map g1 pk ++ flat_map g1 ko ++ ga P_TEST body
-  | PParam _ d => match d with Some c => need P_TEST c ++ gaps false false false false c | None => [] end
+  | PParam _ d => match d with Some c => need P_TEST c ++ gaps false false ijoin ifmt c | None => [] end
   | PNamedExpr t v => ga P_ATOM t ++ ga P_TEST v
   | PStarred v => ga P_BOR v
   | PListComp e gens | PSetComp e gens => ga P_TEST e ++ flat_map g1 gens
@@ -347,7 +404,7 @@ Fixpoint subst (m : pmode) (ijoin ifmt : bool) (e : pyexpr) {struct e} : pyexpr 
   let s := subst m ijoin ifmt in
   let so := fun (o : option pyexpr) => match o with Some c => Some (s c) | None => None end in
   match e with
-  | PName _ | PNum _ _ | PConst _ | PParsed _ => e
+  | PName _ _ | PNum _ _ | PConst _ | PParsed _ => e
   | PStr _ _ parsed =>
       if ijoin && negb ifmt then e
       else match m, parsed with Parse false, Some p => PParsed p | _, _ => e end
@@ -397,7 +454,7 @@ Fixpoint scan (sc : bool) (e : pyexpr) {struct e} : bool :=
   let d := scan sc in
   let dopt := fun (o : option pyexpr) => match o with Some c => d c | None => false end in
   match e with
-  | PName _ | PNum _ _ | PConst _ | PStr _ _ _ => false
+  | PName _ _ | PNum _ _ | PConst _ | PStr _ _ _ => false
   | PParsed p => d p
   | PAwait _ => true
   | PAttribute v _ | PUnaryOp _ v | PKeyword _ v | PStarred v | PYieldFrom v => d v
@@ -431,7 +488,7 @@ Definition ref_top (top : nat) (e : pyexpr) : string := ref_at top e.
 Fixpoint ref_unsupported (e : pyexpr) {struct e} : bool :=
   let ro := fun (o : option pyexpr) => match o with Some c => ref_unsupported c | None => false end in
   match e with
-  | PName _ | PNum _ _ | PConst _ | PStr _ _ _ => false
+  | PName _ _ | PNum _ _ | PConst _ | PStr _ _ _ => false
   | PParsed p => ref_unsupported p
   | PAttribute v _ | PUnaryOp _ v | PKeyword _ v | PStarred v | PYieldFrom v | PAwait v => ref_unsupported v
   | PBinOp l _ r => ref_unsupported l || ref_unsupported r
@@ -468,7 +525,7 @@ Fixpoint wfk (k : poskind) (e : pyexpr) {struct e} : bool :=
   | _ =>
     (match k with KExpr => true | _ => false end) &&
     match e with
-    | PName _ => true
+    | PName _ _ => true
     | PNum isint r => Bool.eqb (is_decimal (num_text isint r)) isint    (* repr of a non-negative int is its decimal digits; a float / complex repr never is *)
     | PConst r | PStr r _ _ => negb (is_decimal r)
     | PParsed p => w p
@@ -500,7 +557,7 @@ Fixpoint src_names (e : pyexpr) {struct e} : list string :=
   let sn := src_names in
   let so := fun (o : option pyexpr) => match o with Some c => sn c | None => [] end in
   match e with
-  | PName id => [id]
+  | PName id _ => [id]
   | PNum _ _ | PConst _ | PStr _ _ _ => []
   | PParsed p => sn p
   | PAttribute v a => sn v ++ [a]
